@@ -39,7 +39,8 @@ def _isseqval(v):
     return isinstance(v, (MapV, Cat, Seq)) or (isinstance(v, Opaque) and v.kind in ("seq", "copy"))
 
 
-def analyse(ctx, min_none, max_none):
+def analyse(ctx, min_none, max_none, zero=False):
+    # zero=True: the bounds that are present have the value 0 (falsy, but a bound all the same)
     P = ctx.P
     f = P.func(RO)
     M = QPModel()
@@ -218,7 +219,10 @@ def analyse(ctx, min_none, max_none):
         ):
             ev.assume("cmp(is, %s, None)" % form, isnone)
             ev.assume("cmp(eq, %s, None)" % form, isnone)
-            ev.assume("truth(%s)" % form, not isnone)  # `if options["minPos"]:` would be a defect (0 is a bound): see C03.WALLS
+            ev.assume("truth(%s)" % form, not isnone and not zero)  # `if options["minPos"]:` would be a defect (0 is a bound): see C03.WALLS
+            if zero and not isnone:
+                ev.assume("cmp(eq, %s, 0)" % form, True)
+                ev.assume("cmp(ne, %s, 0)" % form, False)
     st = ev.new_state(f, {f.params[0]: nodes, f.params[1]: options} if len(f.params) >= 2 else {})
     r = ev.block(f.node.body, st, [])
     M.ret = r.value if r is not None else NONE
@@ -336,6 +340,11 @@ def models(ctx):
         return out
 
     return ctx.get("qpmodels", build)
+
+
+def zero_model(ctx):
+    """Both bounds present and equal to 0."""
+    return ctx.get("qpmodel-zero", lambda: analyse(ctx, False, False, zero=True))
 
 
 # ---------------------------------------------------------------------------
